@@ -126,6 +126,19 @@ def run(ck):
                 seen[cls] = seen.get(cls, 0) + 1
                 case.label = f'{case.label} [{param}={value}]'
                 check_case(ck, case, spec)
+    # "any valid parameters": the same numbers as numpy scalars (np.int64 from an array or attribute, np.float32, np.float64) are valid
+    from ..qc import numpy_scalar_params
+    for name, gen in cases.ALL.items():
+        for kind in ('int64', 'float32', 'float64'):
+            seen = {}
+            for case, spec in gen('quick'):
+                cls = case.meta.get('class')
+                if case.n != 3 or seen.get(cls, 0) >= 1 or (spec is not None and spec.rejects):
+                    continue
+                seen[cls] = 1
+                case.kwargs = numpy_scalar_params(case.kwargs, kind)
+                case.label = f'{case.label} [parameters as np.{kind}]'
+                check_case(ck, case, spec)
     for case, spec in cases.spike(ck.tier, min_n=0):
         if case.n == 0:
             check_case(ck, case, spec)
